@@ -12,6 +12,7 @@ import CogentModel.Proofs.PhyloPhi
 import CogentModel.Proofs.PhyloHistory
 import CogentModel.Proofs.PhyloMidpoint
 import CogentModel.Proofs.PhyloMidSearch
+import CogentModel.Proofs.PhyloNewickStr
 /-! # C09 — property theorems (tree transformations preserve tips, topology and path lengths)
 
 `PTree K`, `rerootAt`, `unrooted`, `sorted`, `getSubTree`, … : `Model/PhyloTree.lean`
@@ -493,5 +494,57 @@ example :
     (rootAtMidpoint t).toOption.map (fun r => (depthR "b" r, depthR "c" r)) = some (9 / 2, 9 / 2) ∧
     internalNames t = ["", "x"] := by
   decide +kernel
+
+
+/-! ### 5. newick at character level
+
+`Model/PhyloNewickStr.lean`: `escapeName` / `printStrW` mirror the writer (`get_newick`,
+escape_name=True: names containing one of ``[]'"(),:;_`` are wrapped in single quotes with inner
+quotes doubled, otherwise blanks become underscores); `lex` mirrors the regular-expression split of
+`_Tokeniser`, `mRun` its token loop (quoted / unquoted labels, strip, underscore un-munging),
+`classify`/`plazy` how `parse_string` reads the token generator (lazily; `float` of the token after
+`:`; a token equal to a punctuation string *is* that punctuation).  All tied to the real code on
+random strings every run.  `sh` stands for Python's float formatting, `rd` for `float`.
+
+Hypotheses = exactly what the code gets right (`GoodTree`): every node is unnamed or has a
+non-empty printable-ASCII name that
+  * does not begin with a single quote      (known finding C09-newick-leading-quote-name), and
+  * is not a single punctuation character `( ) , : ; [`   (known finding C09-newick-punctuation-name).
+JSON (`to_json` writes names unescaped — known finding C09-json-unescaped-names) is not modelled. -/
+
+/-- the tokeniser reads the written string back as the tree's token list (names unescaped) -/
+theorem newick_string_tokens (sh : K → List Char) (hsh : GoodShow sh) (t : PTree K) (hg : GoodTree t) :
+    tokenise (newickStrW sh t) = some ((newickToks true t).map (sTokW sh)) :=
+  tokenise_newickStrW sh hsh t hg
+
+/-- STRING-LEVEL ROUND TRIP: `parse_string(tree.get_newick(with_distances=True))` is the tree —
+every shape, unnamed nodes, missing lengths, names with blanks, underscores, quotes and newick
+metacharacters inside. -/
+theorem newick_string_roundtrip (sh : K → List Char) (rd : List Char → Option K)
+    (hsh : GoodShow sh) (hrd : ∀ k, rd (sh k) = some k) (t : PTree K) (hg : GoodTree t) :
+    parseString rd (newickStrW sh t) = some t :=
+  parseString_newickStrW sh rd hsh hrd t hg
+
+/-- without distances -/
+theorem newick_string_tokens_topology (t : PTree K) (hg : GoodTree t) :
+    tokenise (newickStr t) = some ((newickToks false t).map sTok) :=
+  tokenise_newickStr t hg
+
+-- non-vacuity: a printer/reader pair for a one-element length type, and a tree with awkward names
+example : GoodShow (fun (_ : Unit) => ['1', '.', '5']) := by
+  intro k
+  refine ⟨by simp, ?_⟩
+  intro y hy
+  simp only [List.mem_cons, List.mem_nil_iff, or_false] at hy
+  rcases hy with rfl | rfl | rfl <;> exact ⟨⟨by decide, by decide, by decide, by decide, by decide⟩, by decide, by decide⟩
+example : GoodName "it's (a_b), c:d".toList := by
+  exact ⟨by decide, by decide, by decide, by decide⟩
+example : String.ofList (newickStrW (fun (_ : Unit) => ['1', '.', '5'])
+      (.node "" none [.node "it's (a_b)" (some ()) [], .node "x y" none [.node "c" (some ()) [], .node "" none []]]))
+    = "('it''s (a_b)':1.5,(c:1.5,)x_y);" := by decide +kernel
+example : parseString (fun s => if s = ['1', '.', '5'] then some () else none)
+      "('it''s (a_b)':1.5,(c:1.5,)x_y);".toList
+    = some (.node "" none [.node "it's (a_b)" (some ()) [], .node "x y" none [.node "c" (some ()) [], .node "" none []]]) := by
+  rfl
 
 end CogentModel.C09
